@@ -15,7 +15,8 @@ ORACLES = {
                         "jaccard_index return None; count-min join raises CountMinSketchError",
     "C13.foreign": "a foreign operand (None, str, int, list, an unrelated structure) raises TypeError from all operations",
     "C13.unmodified": "no operation modifies an operand other than the receiver of join (exported bytes identical before/after)",
-    "C13.no_exception": "no other exception",
+    "C13.returns": "no exception other than the documented TypeError / CountMinSketchError from the operations under test",
+    "C13.no_exception": "(soft) an exception while feeding the operands abandons the case; counted, not reported",
 }
 RULE = ("Hypothesis draws a pair type: plain/on-disk Bloom pairs, counting-Bloom pairs or count-min pairs; a relation: compatible (same "
         "geometry and hash, streams drawn from one pool so that intersections are non-trivial, incl. identical and empty operands), "
@@ -73,7 +74,8 @@ def run_case(case, ctx):
 
     pool = so.keys_of(case)
     rel, t = case["rel"], case["t"]
-    noexc = "C13.no_exception"
+    noexc = "C13.returns"
+    ctx.soft_noexc = True
     ra, _ = so.resolve(case["sa"], len(pool))
     rb, _ = so.resolve(case["sb"], len(pool))
     if rel == "identical":
